@@ -876,6 +876,10 @@ func (r *resolver) refine(target Definition, y *Refine) error {
 	}
 	if y.maxElementsPtr != nil {
 		r.builder.MaxElements(target, *y.maxElementsPtr)
+		if u, valid := target.(HasUnbounded); valid && u.IsUnboundedSet() && u.Unbounded() && y.unboundedPtr == nil {
+			// a number replaces "unbounded" stated in the grouping
+			u.setUnbounded(false)
+		}
 	}
 	if y.minElementsPtr != nil {
 		r.builder.MinElements(target, *y.minElementsPtr)
